@@ -1,6 +1,7 @@
 import PSO.Proofs.FramingE2E
 import PSO.Proofs.FramingDuplex
 import PSO.Proofs.FramingDrain
+import PSO.Proofs.FramingCallback
 import PSO.Proofs.FramingExample
 
 /-!
@@ -45,6 +46,32 @@ example : (run Ex.cfg (Conn.init true 0) Ex.writesShort).state = .connected ∧
     (run Ex.cfg (Conn.init true 0) Ex.writesShort).wire = [1, 0, 0, 0, 1, 1, 0] ∧
     (run Ex.cfg (Conn.init true 0) Ex.writesShort).wbuf = [0, 0, 0] ∧
     sentLog Ex.cfg [] Ex.writesShort = [true, false] := ⟨rfl, rfl, rfl, rfl⟩
+
+/-- **writer_prefix_reconnecting_callback.**  `writer_prefix` for an object whose `onDisconnected` callback calls
+`connect()` (accepted or refused) and then `send()`s messages of its own, at whatever point of whatever handler
+the connection was lost (hard error or negative result inside a flush after a short write, time-out, EOF, invalid
+frame, ERROR event, `disconnect()` by the application …): the bytes the CURRENT socket has accepted are a prefix
+of the frames of the messages sent on the current connection (`sentLogCb`: the callback's messages, then the
+application's) — nothing of the previous connection, no torn frame — and while not DISCONNECTED accepted bytes ++
+write buffer are exactly those frames.  (`stepCb`/`runCb`: lean/PSO/Model/Framing.lean; with `cb = none` this is
+`writer_prefix`, `runCb_none`.) -/
+theorem writer_prefix_reconnecting_callback (cfg : Cfg Msg) (cb : Option (DiscCb Msg)) (sock : Bool) (now : Nat)
+    (evs : List (Ev Msg)) :
+    (runCb cfg cb now (Conn.init sock now) evs).wire <+:
+      frames cfg (sentLogCb cfg cb now (Conn.init sock now) [] evs) ∧
+    ((runCb cfg cb now (Conn.init sock now) evs).state ≠ .disconnected →
+      (runCb cfg cb now (Conn.init sock now) evs).wire ++ (runCb cfg cb now (Conn.init sock now) evs).wbuf
+        = frames cfg (sentLogCb cfg cb now (Conn.init sock now) [] evs)) := by
+  have h0 : WInv (frames cfg ([] : List Msg)) (Conn.init sock now : Conn Msg) :=
+    ⟨List.prefix_rfl, fun _ => by simp [Conn.init, frames]⟩
+  exact WInv_runCb cfg cb evs now _ [] h0
+
+/-- non-vacuity: a short write, then a hard error in the same flush; the callback redials and queues `true`;
+the new socket receives exactly the frame of `true`, nothing of the half-sent frame of `false` -/
+example : (runCb Ex.cfg (some Ex.redial) 0 (Conn.init true 0) Ex.lossy).state = .connected ∧
+    (runCb Ex.cfg (some Ex.redial) 0 (Conn.init true 0) Ex.lossy).wire = [1, 0, 0, 0, 1] ∧
+    (runCb Ex.cfg (some Ex.redial) 0 (Conn.init true 0) Ex.lossy).nDisc = 1 ∧
+    sentLogCb Ex.cfg (some Ex.redial) 0 (Conn.init true 0) [] Ex.lossy = [true] := ⟨rfl, rfl, rfl, rfl⟩
 
 /-- **write_interest_armed** (D76).  After every sequence of events whatsoever: while a connect is in flight, and
 whenever bytes are pending in the write buffer of a CONNECTED connection, the descriptor is subscribed for
